@@ -29,7 +29,9 @@ LitLexemes == << S("i5"), S("i-5"), S("i0"), S("i1701411834604692317316873037158
                  Q \o S("\\t") \o Q, Q \o S("//x") \o Q, Q \o <<233, 20013, 128512>> \o Q, Q \o Q, Q \o S("a'b") \o Q,
                  Q \o S("\\\"") \o Q, Q \o S("a") \o <<10>> \o S("b") \o Q, Q \o S("\\u{0}") \o Q, Q \o S("x\\\\\\\"y") \o Q,
                  Q \o <<233, 92, 34, 20013, 92, 92>> \o Q, Q \o S("2015-07-30T03:26:13Z") \o Q, Q \o S("1.5") \o Q,
-                 Q \o <<233, 92, 92, 110, 111>> \o Q, Q \o <<20013, 128512, 92, 92, 116, 92, 34>> \o Q >>
+                 Q \o <<233, 92, 92, 110, 111>> \o Q, Q \o <<20013, 128512, 92, 92, 116, 92, 34>> \o Q,
+                 \* carriage return and line feed, escaped and raw, together and apart
+                 Q \o S("a\\r\\nb") \o Q, Q \o <<97, 13, 10, 98>> \o Q, Q \o S("\\r") \o Q, Q \o <<10, 13>> \o Q, Q \o S("\\n\\r\\n") \o Q >>
 Leaf(lexeme) == Val(Denote(Lex(lexeme).toks[1]).v)
 
 A == Ref(S("a"))
@@ -41,6 +43,8 @@ BinK == {"and", "or", "eq", "neq", "gt", "lt", "gte", "lte", "add", "sub", "mult
 Wraps(x) ==
   {Un(k, x) : k \in UnK}
   \cup {Bin(k, x, A) : k \in BinK} \cup {Bin(k, A, x) : k \in BinK}
+  \* ... and with a sibling that is itself compound (its rendering begins or ends with a bracket)
+  \cup {Bin(k, x, Call(S("fn"), A)) : k \in BinK} \cup {Bin(k, Idx(A, FieldI(S("k"))), x) : k \in BinK}
   \cup {VecE(<<x, Val(St("z"))>>), Bin("eq", x, Val(St("z"))), MapE(<< <<S("j"), x>>, <<S("k"), Val(St("z"))>> >>)}
   \cup {If(x, A, A), If(A, x, A), If(A, A, x), Call(S("fn"), x), Idx(x, FieldI(S("k"))), Idx(x, PosI(0)), Idx(x, PosI(12)), Idx(x, PosI(5)),
          Idx(x, FieldI(S("e5"))), Idx(x, FieldI(S("f"))),
@@ -51,6 +55,10 @@ Wraps(x) ==
 Init == \/ /\ t \in {A, Sym(S("s")), VecE(<<>>), MapE(<<>>)} /\ lx = <<>> /\ d = 0
         \/ /\ t \in {Ref(S("f")), Ref(S("d")), Ref(S("i")), Ref(S("e")), Ref(S("x0")), Sym(S("f")), Sym(S("d")), Ref(S("inty")), Ref(S("f1e"))}
            /\ lx = <<>> /\ d = Depth - 1                     \* wrapped once
+        \* operators written without brackets of their own whose operands' renderings begin and end with a bracket
+        \/ /\ t \in {Bin(k, Idx(A, FieldI(S("k"))), Call(S("fn"), A)) : k \in {"bitand", "bitor", "bitxor", "contains"}}
+                   \cup {Bin(k, If(A, A, A), Bin("add", A, A)) : k \in {"bitand", "bitor", "bitxor", "contains"}}
+           /\ lx = <<>> /\ d = Depth - 1
         \/ \E i \in 1..Len(LitLexemes) : t = Leaf(LitLexemes[i]) /\ lx = LitLexemes[i] /\ d = 0
 \* literal leaves are wrapped once; the reference leaf up to Depth times (the third level over a reduced set)
 Next == /\ d < (IF lx # <<>> THEN 1 ELSE Depth)
